@@ -21,7 +21,11 @@ struct TS : mp::SolverImpl<mp::Problem> {
   void SetD(const mp::SolverOption &, double v) { d_ = v; }
   std::string GetS(const mp::SolverOption &) const { return s_; }
   void SetS(const mp::SolverOption &, fmt::StringRef v) { s_ = v.to_string(); }
+  int w_ = 0, nw_ = 0; std::string wbody_;
+  int GetW(const mp::SolverOption &) const { return w_; }
+  void SetW(const mp::SolverOption &opt, int v) { wbody_ = opt.wc_keybody_last(); w_ = v; ++nw_; }
   TS() : SolverImpl("testsolver", "", 0, 0) {
+    AddIntOption("tag:*:end tag_*_end", "wildcard option", &TS::GetW, &TS::SetW);
     AddIntOption("iopt", "int option", &TS::GetI, &TS::SetI);
     AddDblOption("dopt", "double option", &TS::GetD, &TS::SetD);
     AddStrOption("sopt", "string option", &TS::GetS, &TS::SetS);
@@ -42,6 +46,21 @@ static int parse_one(const char *arg, bool verbose) {
   if (verbose) printf("ok: iopt=%d dopt=%g sopt=[%s]\n", s.i_, s.d_, s.s_.c_str());
   free(text);
   return rc;
+}
+// wildcard option head*tail: every key head + body + tail with a non-empty body over {a, :, e, n, d, _} up to length 5 sets it, with that body
+static int wildcard_sweep() {
+  const char alpha[] = {'a', ':', 'e', 'n', 'd', '_'};
+  std::vector<std::string> cur(1, ""); int bad = 0;
+  for (int len = 1; len <= 5; ++len) {
+    std::vector<std::string> next; for (const std::string &v : cur) for (char c : alpha) next.push_back(v + c); cur.swap(next);
+    for (const std::string &body : cur) for (int form = 0; form < 2; ++form) {
+      std::string key = (form ? "tag_" : "tag:") + body + (form ? "_end" : ":end"), text = key + "=7";
+      std::vector<char> buf(text.begin(), text.end()); buf.push_back(0);
+      TS s; try { s.ParseOptionString(buf.data(), mp::BasicSolver::NO_OPTION_ECHO); } catch (const std::exception &) {}
+      if (s.nw_ != 1 || s.w_ != 7 || s.wbody_ != body) { if (bad++ < 5) printf("VIOLATED: option text [%s] addresses the wildcard option %s with body [%s]: set %d time(s), value %d, body [%s]\n", text.c_str(), form ? "tag_*_end" : "tag:*:end", body.c_str(), s.nw_, s.w_, s.wbody_.c_str()); }
+    }
+  }
+  return bad ? 10 : 0;
 }
 // sweep: every value text over {", ', a, space} up to length 4 for the string option, with and without '='
 static int sweep() {
@@ -95,7 +114,8 @@ static int sweep() {
 }
 int main(int argc, char **argv) {
   if (argc < 2) return 2;
-  if (!strcmp(argv[1], "--sweep")) return sweep();
+  if (!strcmp(argv[1], "--sweep")) { int r = sweep(); return r ? r : wildcard_sweep(); }
+  if (!strcmp(argv[1], "--wildcard")) return wildcard_sweep();
   return parse_one(argv[1], true);
 }
 int old_main(int argc, char **argv) {
